@@ -314,3 +314,78 @@ def include_rules(report, p, modname: str, ids, why: str):
     missing = set(ids) - {r.id for r in sub.rules}
     if missing:
         raise AnalysisError(f"shared rules {sorted(missing)} not produced by {modname}")
+
+
+# ---------------------------------------------------------------------- rename rewrite of the expected set (C03 R3.1 / C17 R17.2)
+def rename_rewrite_sites(p: Program, pr, f: Func):
+    """set comprehensions that map the expected set through the rename map, in f or in module-level helpers f calls.
+    returns list of (func, SetComp)"""
+    out = []
+    cands = [f]
+    for c, tg in p.calls.get(f.qual, []):
+        for t in tg:
+            if t in p.funcs and p.funcs[t].module is f.module and p.funcs[t].cls is None and p.funcs[t] not in cands:
+                cands.append(p.funcs[t])
+    for fn in cands:
+        for n in walk_no_nested(fn.node):
+            if isinstance(n, ast.SetComp) and len(n.generators) == 1:
+                it_o = pr.origins(n.generators[0].iter, fn)
+                if any(is_call(o, "set_of_file_paths") for o in it_o):
+                    out.append((fn, n))
+    return out
+
+
+def rename_rewrite_ok(p: Program, pr, fn: Func, comp: ast.SetComp):
+    """is the comprehension {<new path of p if renamed else p> for p in <set_of_file_paths()>} ?  (ok, why)"""
+    gen = comp.generators[0]
+    if gen.ifs:
+        return False, "the comprehension filters paths"
+    if not isinstance(gen.target, ast.Name):
+        return False, "unrecognised target"
+    v = gen.target.id
+    e = comp.elt
+    maps = set()
+
+    def is_map(x):
+        for o in pr.origins(x, fn):
+            if is_call(o, "renamed_path_with_previous_path"):
+                return True
+        return False
+
+    def is_p(x):
+        return isinstance(x, ast.Name) and x.id == v
+
+    def sub_p(x):  # R[p]
+        return isinstance(x, ast.Subscript) and is_map(x.value) and is_p(x.slice)
+
+    def get_p(x, default=None):  # R.get(p[, d])
+        if isinstance(x, ast.Call) and isinstance(x.func, ast.Attribute) and x.func.attr == "get" and is_map(x.func.value) and x.args and is_p(x.args[0]):
+            if len(x.args) == 1:
+                return default in (None, "none")
+            if default == "none":
+                return isinstance(x.args[1], ast.Constant) and x.args[1].value is None
+            if default == "p":
+                return is_p(x.args[1])
+        return False
+
+    # R.get(p, p)
+    if get_p(e, "p"):
+        return True, ""
+    # R.get(p) or p
+    if isinstance(e, ast.BoolOp) and isinstance(e.op, ast.Or) and len(e.values) == 2 and get_p(e.values[0], "none") and is_p(e.values[1]):
+        return True, ""
+    if isinstance(e, ast.IfExp):
+        t = e.test
+        # p if R.get(p[, None]) is None else R[p]
+        if isinstance(t, ast.Compare) and len(t.ops) == 1 and isinstance(t.comparators[0], ast.Constant) and t.comparators[0].value is None and get_p(t.left, "none"):
+            if isinstance(t.ops[0], (ast.Is, ast.Eq)) and is_p(e.body) and sub_p(e.orelse):
+                return True, ""
+            if isinstance(t.ops[0], (ast.IsNot, ast.NotEq)) and sub_p(e.body) and is_p(e.orelse):
+                return True, ""
+        # R[p] if p in R else p
+        if isinstance(t, ast.Compare) and len(t.ops) == 1 and is_p(t.left) and is_map(t.comparators[0]):
+            if isinstance(t.ops[0], ast.In) and sub_p(e.body) and is_p(e.orelse):
+                return True, ""
+            if isinstance(t.ops[0], ast.NotIn) and is_p(e.body) and sub_p(e.orelse):
+                return True, ""
+    return False, f"element expression `{norm(e)[:80]}` is not 'the new path of p if p was renamed, else p'"
